@@ -18,6 +18,14 @@
   running file a counter `pc` (handlers already served): `append i pc` appends to the list of handler
   `pc` only.
 
+**Sessions.**  One `Linter`/`Reporter` can be used for several `lint_files_glob` calls with different
+worker counts before `Reporter.output()` (and `Linter.check` can be called directly in between): the
+handler lists live in the reporter and accumulate.  `Reporter.init_parallel` moves them into the new
+manager with `manager.list(reports)`, i.e. it **keeps** what was collected so far.  The event
+`call files w` (enabled when nothing is pending or running) starts the next call: it sets the pending
+files and the worker count and leaves the handler lists untouched; `all` is the (ghost) list of all files
+submitted so far.
+
 Transition system: `start i` takes any pending file while fewer than `w` jobs run; `append i pc`;
 `finish i` when all `nh` handlers are served (the future completes, `checked_count += result`).  Any
 interleaving is a run.  The serial path (`max_workers == 1`: `for path in files: check_and_fix_file(…)`)
@@ -30,20 +38,24 @@ Core Lean only.
 namespace LokiModel.C42
 
 structure Cfg (ρ β : Type) where
-  files : List Nat
   lint : Nat → ρ
   ok : ρ → Bool
   nh : Nat
   handle : Nat → ρ → β
-  w : Nat
 
 inductive Ev where
+  /-- `lint_files_glob(linter, …, max_workers = w)` on the files `files` -/
+  | call (files : List Nat) (w : Nat)
   | start (i : Nat)
   | append (i pc : Nat)
   | finish (i : Nat)
 deriving Repr, DecidableEq
 
 structure State (β : Type) where
+  /-- ghost: every file submitted so far, over all calls -/
+  all : List Nat
+  /-- worker count of the current call -/
+  w : Nat
   pending : List Nat
   /-- (file, number of handlers already served) -/
   running : List (Nat × Nat)
@@ -53,19 +65,25 @@ structure State (β : Type) where
   apps : Nat → List Nat
   /-- `handlers_reports`: per handler the list of `handle` results -/
   outs : Nat → List β
-  /-- `checked_count` -/
+  /-- sum of the `checked_count`s -/
   count : Nat
 
 variable {ρ β : Type}
 
-def init (c : Cfg ρ β) : State β :=
-  { pending := c.files, running := [], done := [], apps := fun _ => [], outs := fun _ => [], count := 0 }
+/-- a fresh `Reporter`: empty handler lists -/
+def init : State β :=
+  { all := [], w := 0, pending := [], running := [], done := [], apps := fun _ => [], outs := fun _ => [], count := 0 }
 
 def upd {α : Type} (f : Nat → α) (k : Nat) (v : α) : Nat → α := fun j => if j = k then v else f j
 
+def isFinal (s : State β) : Bool := s.pending.isEmpty && s.running.isEmpty
+
 def step (c : Cfg ρ β) (s : State β) : Ev → Option (State β)
+  | .call files w =>
+    -- `init_parallel`: `parallel_reports[handler] = manager.list(reports)` keeps the lists
+    if isFinal s then some { s with all := s.all ++ files, w := w, pending := files } else none
   | .start i =>
-    if s.pending.contains i && decide (s.running.length < c.w) then
+    if s.pending.contains i && decide (s.running.length < s.w) then
       some { s with pending := s.pending.erase i, running := s.running ++ [(i, 0)] }
     else none
   | .append i pc =>
@@ -87,10 +105,8 @@ copy unpickled from the manager dict — is garbage collected.  The former behav
 `LokiModel/Findings/C42.lean`. -/
 def onDisk (_c : Cfg ρ β) (s : State β) (k : Nat) : Option (List β) := some (s.outs k)
 
-def isFinal (s : State β) : Bool := s.pending.isEmpty && s.running.isEmpty
-
 inductive Reach (c : Cfg ρ β) : State β → Prop
-  | init : Reach c (init c)
+  | init : Reach c init
   | step {s s' : State β} {e : Ev} : Reach c s → step c s e = some s' → Reach c s'
 
 def replay (c : Cfg ρ β) (s : State β) : List Ev → Option (State β)
@@ -110,8 +126,21 @@ def serialEvents (nh : Nat) : List Nat → List Ev
   | [] => []
   | f :: fs => .start f :: (appendsFrom f 0 nh ++ .finish f :: serialEvents nh fs)
 
-/-- what the serial loop leaves in the list of handler `k` -/
-def serialOut (c : Cfg ρ β) (k : Nat) : List β := c.files.map (fun f => c.handle k (c.lint f))
+/-- a whole session run with one worker: every call is the serial loop -/
+def sessionSerial (nh : Nat) : List (List Nat) → List Ev
+  | [] => []
+  | fs :: rest => .call fs 1 :: (serialEvents nh fs ++ sessionSerial nh rest)
+
+/-- the files submitted by the calls of an event list -/
+def filesOf : List Ev → List Nat
+  | [] => []
+  | .call fs _ :: es => fs ++ filesOf es
+  | .start _ :: es => filesOf es
+  | .append _ _ :: es => filesOf es
+  | .finish _ :: es => filesOf es
+
+/-- what the serial loop over `files` leaves in the list of handler `k` -/
+def serialOut (c : Cfg ρ β) (files : List Nat) (k : Nat) : List β := files.map (fun f => c.handle k (c.lint f))
 
 /-! ### trace validator (driver side; its answer is re-checked by `replay`) -/
 
